@@ -88,7 +88,101 @@ Result run(const OpEntry& e) {
   return r;
 }
 
-void register_form(const OpEntry* entries, int count, char form) {
+// ---- histories before main: short sequences of stream ops that share ONE caller-owned stream, so that state an op
+// leaves in the stream (a manipulator's iword/pword slot, width, flags, state bits) meets the next op -- evaluated from the
+// same registrar objects as the single ops, and again inside main.  Ids start at kChainBase.
+constexpr int kChainBase = 2000000;
+constexpr int kMaxChains = 60000;
+struct ChainRec {
+  int ids[4];
+  int n;
+  std::uint64_t seed;
+  std::uint64_t pre_h;
+  long pre_len;
+  int pre_status;
+  const char* pre_type;
+  char form;
+};
+ChainRec g_chains[kMaxChains];
+int g_nchains = 0;
+int g_stream_ids[kMaxApi];
+int g_nstream = 0;
+int g_manip_ids[kMaxApi];
+int g_nmanip = 0;
+
+std::uint64_t mix(std::uint64_t& st) {
+  std::uint64_t z = (st += 0x9E3779B97F4A7C15ULL);
+  z = (z ^ (z >> 30)) * 0xBF58476D1CE4E5B9ULL;
+  z = (z ^ (z >> 27)) * 0x94D049BB133111EBULL;
+  return z ^ (z >> 31);
+}
+
+Result run_chain(const ChainRec& ch) {
+  Result r{0, 0, 0, ""};
+  FaultBuf buf;
+  std::ostream os(&buf);
+  Ctx c;
+  c.vclass = -1;
+  std::uint64_t chain = 0;
+  long len = 0;
+  try {
+    for (int k = 0; k < ch.n; ++k) {
+      const OpEntry& e = *g_api[ch.ids[k]].e;
+      c.reset(name_seed(e.name) + ch.seed + static_cast<std::uint64_t>(k) * 0x9E3779B97F4A7C15ULL, -1, -1, &os);
+      e.fn(c, e.which);
+      chain = chain * 1099511628211ULL + c.h;
+      len += c.result_len;
+    }
+  } catch (const std::exception& ex) {
+    r.status = 1;
+    r.type = typeid(ex).name();
+  } catch (...) {
+    r.status = 1;
+    r.type = "unknown";
+  }
+  for (char ch_ : buf.accepted) chain = (chain ^ static_cast<unsigned char>(ch_)) * 1099511628211ULL;
+  chain = chain * 1099511628211ULL + static_cast<std::uint64_t>(os.rdstate());
+  r.h = chain;
+  r.len = len + static_cast<long>(buf.accepted.size());
+  return r;
+}
+
+void chains_after_registration(char form, int first_new) {
+  if (g_nstream < 2) return;
+  const int want = g_nmanip > 0 ? 24 : 4;
+  std::uint64_t st = name_seed("chain") + static_cast<std::uint64_t>(g_nchains) * 0xD1B54A32D192ED03ULL;
+  for (int k = 0; k < want && g_nchains < kMaxChains; ++k) {
+    ChainRec& ch = g_chains[g_nchains];
+    ch.form = form;
+    ch.seed = mix(st);
+    ch.n = 2 + static_cast<int>(mix(st) % 3);
+    for (int i = 0; i < ch.n; ++i) {
+      const bool last = i + 1 == ch.n;
+      if (!last && g_nmanip > 0 && mix(st) % 4 != 0) {
+        ch.ids[i] = g_manip_ids[mix(st) % static_cast<std::uint64_t>(g_nmanip)];
+      } else {
+        // prefer the stream ops of the table that has just been registered (they are initialised under the same conditions)
+        int pick = g_stream_ids[mix(st) % static_cast<std::uint64_t>(g_nstream)];
+        if (mix(st) % 2 == 0) {
+          for (int tries = 0; tries < 8 && pick < first_new; ++tries) pick = g_stream_ids[mix(st) % static_cast<std::uint64_t>(g_nstream)];
+        }
+        ch.ids[i] = pick;
+      }
+    }
+    const int id = kChainBase + g_nchains;
+    ++g_nchains;
+    if (skipped(id)) { ch.pre_status = 2; continue; }
+    mark('B', id);
+    Result r = run_chain(ch);
+    ch.pre_status = r.status;
+    ch.pre_h = r.h;
+    ch.pre_len = r.len;
+    ch.pre_type = r.type;
+    mark('E', id);
+  }
+}
+
+void register_form_ops(const OpEntry* entries, int count, char form) {
   for (int i = 0; i < count && g_napi < kMaxApi; ++i) {
     int id = g_napi++;
     ApiRec& rec = g_api[id];
@@ -103,6 +197,16 @@ void register_form(const OpEntry* entries, int count, char form) {
     rec.pre_type = r.type;
     mark('E', id);
   }
+}
+
+void register_form(const OpEntry* entries, int count, char form) {
+  const int first_new = g_napi;
+  for (int i = 0; i < count && first_new + i < kMaxApi; ++i) {
+    if (entries[i].flags & kManipulator) g_manip_ids[g_nmanip++] = first_new + i;
+    else if (entries[i].flags & kUsesStream) g_stream_ids[g_nstream++] = first_new + i;
+  }
+  register_form_ops(entries, count, form);
+  chains_after_registration(form, first_new);
 }
 }  // namespace
 
@@ -142,6 +246,14 @@ int main() {
       std::printf("P %d c %d %016llx %ld - %d %016llx %ld - %s\n", lid, st, static_cast<unsigned long long>(a.h), a.len, mst,
                   static_cast<unsigned long long>(b.h), b.len, e.name);
     }
+  }
+  for (int k = 0; k < vrt::g_nchains; ++k) {
+    const vrt::ChainRec& ch = vrt::g_chains[k];
+    vrt::Result r = vrt::run_chain(ch);
+    std::string name = "chain:";
+    for (int i = 0; i < ch.n; ++i) { if (i) name += "=>"; name += vrt::g_api[ch.ids[i]].e->name; }
+    std::printf("P %d h %d %016llx %ld %s %d %016llx %ld %s %s\n", vrt::kChainBase + k, ch.pre_status, static_cast<unsigned long long>(ch.pre_h), ch.pre_len,
+                (ch.pre_type && *ch.pre_type) ? ch.pre_type : "-", r.status, static_cast<unsigned long long>(r.h), r.len, (r.type && *r.type) ? r.type : "-", name.c_str());
   }
   std::printf("DONE %d\n", vrt::g_napi);
   std::fflush(stdout);
